@@ -5,6 +5,6 @@ CONSTANTS Types <- AllTypes
           ExtVals <- MCExt
           TimeVals <- MCTimes
           DataLens = {0, 5}
-          BlockSizes = {0, 7}
-          MaxBlocks = 2
+          BlockSizes = {7}
+          MaxBlocks = 1
 INVARIANTS TypeOK ModeReadBack UnsetRule FileSizeIsContent
